@@ -57,6 +57,9 @@ structure Acct where
   code : Bool := false
 deriving DecidableEq, Repr, Inhabited
 
+/-- `AccountState.SetNonce` -/
+def Acct.setNonce (a : Acct) (n : Nat) : Acct := { a with nonce := n }
+
 /-- Everything a `BlockState` (StateDB buffer + storage cache) shows to `executeTx`. -/
 structure World where
   /-- account records; presence = `StateDB.GetState ≠ nil` -/
@@ -419,8 +422,8 @@ def vmCall (w : World) (tx : Tx) (snd rcv : Copy) (isFD : Bool) (base : Nat) : E
         let rcv := { rcv with cur := ra }
         let pend := { pend with sets := tx.script.sets, dels := tx.script.dels }
         let fee := base + tx.script.fee
-        let payer := if isFD then rcv else snd
-        if payer.cur.bal < fee then
+        let payerBal := if isFD then ra.bal else sa.bal
+        if payerBal < fee then
           -- vmError(ErrInsufficientBalance) after the VM has committed its calls
           let shared := w.cached.contains rcv.id
           let wl := if shared then w'.write rcv.id pend else w'
@@ -493,46 +496,64 @@ def execSystem (c : Ctx) (w : World) (tx : Tx) (snd rcv : Copy) : GovOut :=
 inductive NameRef
   | snd | rcv | other (cp : Copy)
 
+/-- the owner recorded for a name (buffered view, `getOwner(scs, name, false)`) -/
+def World.ownerOf (w : World) (n : Nat) : Option Addr := (mget w.names n).map (·.1)
+
+/-- `ExecuteNameTx`: `nameState` is the owner of the name contract if one is set (the sender's own
+record if the sender is that owner, otherwise a *fresh* `GetAccountState`), else the receiver -/
+def nameRef (w : World) (snd : Copy) : NameRef :=
+  match w.ownerOf nAergoName with
+  | some o => if snd.id = o then .snd else .other (w.getCopy o)
+  | none => .rcv
+
+/-- `SendBalance(sender, nameState, amount)` of CreateName / UpdateName, then `nameState.PutState()` -/
+def payName (ns : NameRef) (snd rcv : Copy) (amt : Nat) (w : World) : Option (Copy × Copy × World) :=
+  match ns with
+  | .snd => some (snd, rcv, w.put snd.id snd.cur)
+  | .rcv =>
+    match sendBal snd rcv amt with
+    | none => none
+    | some (s, r) => some (s, r, w.put r.id r.cur)
+  | .other cp =>
+    match sendBal snd cp amt with
+    | none => none
+    | some (s, cp') => some (s, rcv, w.put cp'.id cp'.cur)
+
+/-- `name.ValidateNameTx` after the balance test -/
+def validateName (c : Ctx) (w : World) (tx : Tx) (snd : Copy) : Option Rej :=
+  match tx.gov with
+  | .nameCreate n =>
+    if c.namePrice > tx.amount then some .tooSmall
+    else if (w.ownerOf n).isSome then some .other else none
+  | .nameUpdate n _ =>
+    if c.namePrice > tx.amount then some .tooSmall
+    else if w.ownerOf n ≠ some snd.id then some .other else none
+  | .setOwner _ => if (w.ownerOf nAergoName).isSome then some .other else none
+  | _ => some .other
+
+/-- `SetContractOwner` + the two `PutState`s: `nameState` is the receiver (no owner yet), `ownerState`
+a fresh copy of `a` -/
+def setOwner (w : World) (rcv : Copy) (a : Addr) : Option (Copy × World) :=
+  let oc := w.getCopy a
+  match sendBal rcv oc rcv.cur.bal with
+  | none => none
+  | some (r, oc') =>
+    let w1 := { w with names := mset w.names nAergoName (a, aName) }
+    let w2 := w1.put oc'.id oc'.cur        -- ownerState.PutState()
+    let w3 := w2.put r.id r.cur            -- nameState.PutState()
+    some (r, w3)
+
 /-- `name.ExecuteNameTx`: `ValidateNameTx`, choice of `nameState`, CreateName / UpdateName /
 SetContractOwner, the `PutState`s inside. -/
 def execName (c : Ctx) (w : World) (tx : Tx) (snd rcv : Copy) : GovOut :=
   let fail (r : Rej) : GovOut := { snd, rcv, w, err := some r }
-  let ownerOf (n : Nat) : Option Addr := (mget w.names n).map (·.1)
   if snd.cur.bal < tx.amount then fail .insufficient else
-  -- ValidateNameTx
-  let pre : Option Rej :=
-    match tx.gov with
-    | .nameCreate n =>
-      if c.namePrice > tx.amount then some .tooSmall
-      else if (ownerOf n).isSome then some .other else none
-    | .nameUpdate n _ =>
-      if c.namePrice > tx.amount then some .tooSmall
-      else if ownerOf n ≠ some snd.id then some .other else none
-    | .setOwner _ => if (ownerOf nAergoName).isSome then some .other else none
-    | _ => some .other
-  match pre with
+  match validateName c w tx snd with
   | some r => fail r
   | none =>
-  -- nameState
-  let ns : NameRef :=
-    match ownerOf nAergoName with
-    | some o => if snd.id = o then .snd else .other (w.getCopy o)
-    | none => .rcv
-  -- SendBalance(sender, nameState, amount), then nameState.PutState()
-  let pay (w : World) : Option (Copy × Copy × World) :=
-    match ns with
-    | .snd => some (snd, rcv, w.put snd.id snd.cur)
-    | .rcv =>
-      match sendBal snd rcv tx.amount with
-      | none => none
-      | some (s, r) => some (s, r, w.put r.id r.cur)
-    | .other cp =>
-      match sendBal snd cp tx.amount with
-      | none => none
-      | some (s, cp') => some (s, rcv, w.put cp'.id cp'.cur)
   match tx.gov with
   | .nameCreate n =>
-    match pay { w with names := mset w.names n (snd.id, snd.id) } with
+    match payName (nameRef w snd) snd rcv tx.amount { w with names := mset w.names n (snd.id, snd.id) } with
     | none => fail .insufficient
     | some (s, r, w') => { snd := s, rcv := r, w := w', err := none }
   | .nameUpdate n to =>
@@ -540,19 +561,13 @@ def execName (c : Ctx) (w : World) (tx : Tx) (snd rcv : Copy) : GovOut :=
     if (mget w.namesInit n).isNone then fail .other
     else
       let owner := (mget w.creator to).getD to
-      match pay { w with names := mset w.names n (owner, to) } with
+      match payName (nameRef w snd) snd rcv tx.amount { w with names := mset w.names n (owner, to) } with
       | none => fail .insufficient
       | some (s, r, w') => { snd := s, rcv := r, w := w', err := none }
   | .setOwner a =>
-    -- nameState = receiver (no owner yet); ownerState is a fresh copy of `a`
-    let oc := w.getCopy a
-    match sendBal rcv oc rcv.cur.bal with
+    match setOwner w rcv a with
     | none => fail .insufficient
-    | some (r, oc') =>
-      let w1 := { w with names := mset w.names nAergoName (a, aName) }
-      let w2 := w1.put oc'.id oc'.cur        -- ownerState.PutState()
-      let w3 := w2.put r.id r.cur            -- nameState.PutState()
-      { snd, rcv := r, w := w3, err := none }
+    | some (r, w') => { snd, rcv := r, w := w', err := none }
   | _ => fail .other
 
 /-! ## chain/chainhandle.go -/
@@ -574,7 +589,7 @@ def resetAccount (cp : Copy) (fee : Option Nat) (nonce : Option Nat) : Option Ac
     | some f => if a.bal < f then none else some { a with bal := absSub a.bal f }
     | none => some a
   charged.map fun a => match nonce with
-    | some n => { a with nonce := n }
+    | some n => a.setNonce n
     | none => a
 
 /-- the `if err != nil` branch of `executeTx` for a runtime error. `w0`: the world before the tx
@@ -597,10 +612,32 @@ def runtimeBranch (w0 w : World) (bp : Nat) (tx : Tx) (snd rcv : Copy) (fee : Na
 /-- the success branch: `sender.SetNonce; sender.PutState(); if ids differ receiver.PutState()`.
 (The `Balance().Sign() < 0` tests can never fire: `Balance()` is `SetBytes`.) -/
 def successBranch (w : World) (bp : Nat) (tx : Tx) (snd rcv : Copy) (fee : Nat) (status : Status) : Result :=
-  let w1 := w.put snd.id { snd.cur with nonce := tx.nonce }
+  let w1 := w.put snd.id (snd.cur.setNonce tx.nonce)
   let w2 := if snd.id ≠ rcv.id then w1.put rcv.id rcv.cur else w1
   { outcome := .success, w := w2, bp := bp + fee
     receipt := some { status, fee, feeDelegation := tx.type = .feeDelegation, contract := rcv.id } }
+
+/-- what `executeTx` does with the result of `contract.Execute`: `SubBalance(txFee)` on the payer's
+record, then the error branch or the success branch -/
+def finishVm (w : World) (bp : Nat) (tx : Tx) (status : Status) (isFD : Bool) (o : ExecOut) : Result :=
+  let snd' := if isFD then o.snd else o.snd.subBalance o.fee
+  let rcv' := if isFD then o.rcv.subBalance o.fee else o.rcv
+  match o.err with
+  | some (.reject r) => { outcome := .rejected r, w, bp, dirty := o.dirty }
+  | some .runtime => runtimeBranch w o.w bp tx snd' rcv' o.fee o.leak o.dirty
+  | none => successBranch o.w bp tx snd' rcv' o.fee status
+
+/-- the receiver record of `executeTx`: `GetAccountState(recipient)` (flagged for REDEPLOY) or
+`CreateAccountState(CreateContractID(..))` -/
+def mkReceiver (w : World) (tx : Tx) : Except Rej (Copy × Status) :=
+  match tx.recipient with
+  | some r =>
+    let cp := w.getCopy r
+    if tx.type = .redeploy then .ok ({ cp with deploy := true, redeploy := true }, .recreated)
+    else .ok (cp, .success)
+  | none =>
+    let cp := w.getCopy tx.newAddr
+    if !cp.isNew then .error .exists_ else .ok ({ cp with deploy := true }, .created)
 
 /-- `executeTx` on world `w` with accumulated `BpReward = bp`. On a rejection the result carries the
 world unchanged (what `NewTxExecutor`'s rollback to the pre-tx snapshot yields, C12). -/
@@ -617,17 +654,7 @@ def executeTx (c : Ctx) (w : World) (bp : Nat) (tx : Tx) : Result :=
     -- receiver is the sender object; the stub VM finds no code: vm error, no VM fee
     runtimeBranch w w bp tx snd snd (txBaseFee c tx.payloadLen) false false
   else
-  -- receiver
-  let rcvE : Except Rej (Copy × Status) :=
-    match tx.recipient with
-    | some r =>
-      let cp := w.getCopy r
-      if tx.type = .redeploy then .ok ({ cp with deploy := true, redeploy := true }, .recreated)
-      else .ok (cp, .success)
-    | none =>
-      let cp := w.getCopy tx.newAddr
-      if !cp.isNew then .error .exists_ else .ok ({ cp with deploy := true }, .created)
-  match rcvE with
+  match mkReceiver w tx with
   | .error r => rej r
   | .ok (rcv, status) =>
   match tx.type with
@@ -643,20 +670,9 @@ def executeTx (c : Ctx) (w : World) (bp : Nat) (tx : Tx) : Result :=
     match validateMaxFee c tx rcv.cur.bal with
     | some r => rej r
     | none =>
-      if tx.script.nofd then rej .other else
-      let o := execute c w tx snd rcv true
-      let rcv' := o.rcv.subBalance o.fee
-      match o.err with
-      | some (.reject r) => { rej r with dirty := o.dirty }
-      | some .runtime => runtimeBranch w o.w bp tx o.snd rcv' o.fee o.leak o.dirty
-      | none => successBranch o.w bp tx o.snd rcv' o.fee status
-  | _ =>
-    let o := execute c w tx snd rcv false
-    let snd' := o.snd.subBalance o.fee
-    match o.err with
-    | some (.reject r) => { rej r with dirty := o.dirty }
-    | some .runtime => runtimeBranch w o.w bp tx snd' o.rcv o.fee o.leak o.dirty
-    | none => successBranch o.w bp tx snd' o.rcv o.fee status
+      if tx.script.nofd then rej .other
+      else finishVm w bp tx status true (execute c w tx snd rcv true)
+  | _ => finishVm w bp tx status false (execute c w tx snd rcv false)
 
 /-! ## blocks -/
 
